@@ -122,7 +122,7 @@ func (c *SumDiffCommand) sumDiffItem(item string, tow io.Writer) error {
 	if err := g.Wait(); err != nil {
 		if err2 := AsFileNotExistError(err); err2 != nil {
 			fmt.Fprintf(tow, "err:%s\tsrcOrDest:%s\n", err2.cause, err2.srcOrDest)
-			return nil
+			return ErrDiffFound
 		}
 		return err
 	}
